@@ -74,6 +74,16 @@ impl DepManager {
         output
     }
 
+    /// (number of in-edges, sum of out-edge counts, number of finished vertices)
+    #[cfg(feature = "verif")]
+    pub fn verif_stats(&self) -> (usize, usize, usize) {
+        (
+            self.in_edges.values().map(|v| v.len()).sum(),
+            self.out_edge_counts.values().sum(),
+            self.finished.len(),
+        )
+    }
+
     /// Convert the remaining graph to a map of `depender -> [dependencies]`
     pub fn take_remaining(self) -> HashMap<AbsPath, HashSet<AbsPath>> {
         let mut out_edges = HashMap::new();
